@@ -8,6 +8,9 @@
 #define MSA_OP_IMPORT
 #include "msa_op.h"
 
+#ifdef KALIGN_VERIF
+extern void kalign_verif_tables(const double* dna, const double* protein);
+#endif
 static int aln_unknown_warning_message_gaps_but_len_diff(struct msa *msa);
 static int aln_unknown_warning_message_same_len_no_gaps(void);
 
@@ -165,6 +168,10 @@ int detect_alphabet(struct msa* msa)
         for(i = 0 ; i < 40;i++){
                 protein[(int) protein_letters[i]] = log(0.9999 * 1.0 / 40.0);
         }
+#ifdef KALIGN_VERIF
+        /* verification hook (add-only, compiled out by default): export the two letter models */
+        kalign_verif_tables(DNA, protein);
+#endif
         /* dna_prob = 0.0; */
         /* prot_prob = 0.0; */
         /* for(i = 0; i <128;i++){ */
